@@ -398,7 +398,12 @@ class SolverSeam:
                         warnings.warn_explicit(msg, UserWarning, filename="cvxpy/problems/problem.py", lineno=1,
                                                module="cvxpy.problems.problem", registry={})
                     else:
-                        _cvx_warn(msg)
+                        # in a deployment the first frame outside cvxpy is elexsolver's solver module (this seam's own frames do not
+                        # exist there): attribute the warning to it explicitly, file name and module name as Python would
+                        import elexsolver.QuantileRegressionSolver as _qrs_mod
+
+                        warnings.warn_explicit(msg, UserWarning, filename=_qrs_mod.__file__, lineno=1, module=_qrs_mod.__name__,
+                                               registry=_qrs_mod.__dict__.setdefault("__warningregistry__", {}))
 
             def _fit(self, *a, **k):
                 self._sim_solve_hook()
